@@ -2,6 +2,7 @@ package main
 
 import (
 	"sync"
+	"sync/atomic"
 	"fmt"
 	"math/big"
 	"strings"
@@ -41,44 +42,106 @@ type Term struct {
 	P2   int      // extract lo
 }
 
-type TermFactory struct {
-	mu   sync.Mutex
-	tab  map[string]*Term
-	next int
+type termKey struct {
+	op, name   string
+	k, w       int
+	small      uint64 // const value when it fits
+	big        string // const value otherwise
+	hasC       bool
+	p1, p2     int
+	n          int
+	a0, a1, a2 int
+	rest       string
 }
 
-var TF = &TermFactory{tab: map[string]*Term{}}
+const nShards = 64
+
+type termShard struct {
+	mu  sync.Mutex
+	tab map[termKey]*Term
+}
+
+type TermFactory struct {
+	shards [nShards]termShard
+	next   atomic.Int64
+}
+
+var TF = newTermFactory()
+
+func newTermFactory() *TermFactory {
+	f := &TermFactory{}
+	for i := range f.shards {
+		f.shards[i].tab = map[termKey]*Term{}
+	}
+	return f
+}
 
 func (f *TermFactory) intern(t *Term) *Term {
-	var sb strings.Builder
-	sb.WriteString(t.Op)
-	sb.WriteByte('|')
-	sb.WriteString(t.S.String())
-	sb.WriteByte('|')
+	k := termKey{op: t.Op, name: t.Name, k: t.S.K, w: t.S.W, p1: t.P1, p2: t.P2, n: len(t.Args)}
+	h := uint64(len(t.Op))*131 + uint64(t.S.W)
 	if t.C != nil {
-		sb.WriteString(t.C.String())
+		k.hasC = true
+		if t.C.IsUint64() {
+			k.small = t.C.Uint64()
+			h = h*31 + k.small
+		} else {
+			k.big = t.C.Text(32)
+			h = h*31 + uint64(len(k.big)) + uint64(k.big[len(k.big)-1])
+		}
 	}
-	sb.WriteByte('|')
-	sb.WriteString(t.Name)
-	fmt.Fprintf(&sb, "|%d|%d", t.P1, t.P2)
-	for _, a := range t.Args {
-		fmt.Fprintf(&sb, ",%d", a.id)
+	for i, a := range t.Args {
+		switch i {
+		case 0:
+			k.a0 = a.id
+		case 1:
+			k.a1 = a.id
+		case 2:
+			k.a2 = a.id
+		default:
+			k.rest += fmt.Sprintf(",%d", a.id)
+		}
+		h = h*1000003 + uint64(a.id)
 	}
-	k := sb.String()
-	f.mu.Lock()
-	defer f.mu.Unlock()
-	if x, ok := f.tab[k]; ok {
+	for i := 0; i < len(t.Name); i++ {
+		h = h*31 + uint64(t.Name[i])
+	}
+	sh := &f.shards[h%nShards]
+	sh.mu.Lock()
+	if x, ok := sh.tab[k]; ok {
+		sh.mu.Unlock()
 		return x
 	}
-	f.next++
-	t.id = f.next
-	f.tab[k] = t
+	t.id = int(f.next.Add(1))
+	sh.tab[k] = t
+	sh.mu.Unlock()
 	return t
 }
 
+var maskCache sync.Map
+
 func mask(w int) *big.Int {
+	if m, ok := maskCache.Load(w); ok {
+		return m.(*big.Int)
+	}
 	m := new(big.Int).Lsh(big.NewInt(1), uint(w))
-	return m.Sub(m, big.NewInt(1))
+	m.Sub(m, big.NewInt(1))
+	maskCache.Store(w, m)
+	return m
+}
+
+// small constants are created constantly by the interpreter: keep them in tables
+var smallConsts [65][]*Term
+
+func init() {
+	for _, w := range []int{8, 16, 32, 64} {
+		smallConsts[w] = make([]*Term, 300)
+		for v := 0; v < 300; v++ {
+			if w == 8 && v > 255 {
+				break
+			}
+			smallConsts[w][v] = TF.intern(&Term{Op: "const", S: BV(w), C: big.NewInt(int64(v))})
+		}
+	}
 }
 
 func BVConst(v *big.Int, w int) *Term {
@@ -89,13 +152,20 @@ func BVConst(v *big.Int, w int) *Term {
 	}
 	return TF.intern(&Term{Op: "const", S: BV(w), C: x})
 }
-func BVConstI(v int64, w int) *Term { return BVConst(big.NewInt(v), w) }
-func BoolConst(b bool) *Term {
-	c := big.NewInt(0)
-	if b {
-		c = big.NewInt(1)
+func BVConstI(v int64, w int) *Term {
+	if v >= 0 && w <= 64 && smallConsts[w] != nil && v < int64(len(smallConsts[w])) && smallConsts[w][v] != nil {
+		return smallConsts[w][v]
 	}
-	return TF.intern(&Term{Op: "const", S: SBool, C: c})
+	return BVConst(big.NewInt(v), w)
+}
+var boolTrue = TF.intern(&Term{Op: "const", S: SBool, C: big.NewInt(1)})
+var boolFalse = TF.intern(&Term{Op: "const", S: SBool, C: big.NewInt(0)})
+
+func BoolConst(b bool) *Term {
+	if b {
+		return boolTrue
+	}
+	return boolFalse
 }
 func IntConst(v *big.Int) *Term { return TF.intern(&Term{Op: "const", S: SInt, C: new(big.Int).Set(v)}) }
 func Var(name string, s Sort) *Term { return TF.intern(&Term{Op: "var", S: s, Name: name}) }
